@@ -50,8 +50,15 @@ pub fn check_reader(record: &[u8], stream: &[u8], cuts: &[usize]) -> Result<(), 
         _ => {
             // the one-shot delivery yields nothing (e.g. fragment length above the 2^14 record limit of
             // RFC 8446 5.1): invariance then means that no segmentation yields a result either
+            // Only segments that carry bytes of this record are constrained: what a reader does with a later handshake
+            // record of the same stream is outside the statement.
             let mut reader = TlsClientHelloReader::new();
+            let mut before = 0usize;
             for (i, seg) in split(stream, cuts).iter().enumerate() {
+                if before >= record.len() {
+                    break;
+                }
+                before += seg.len();
                 if let Ok(Some(_)) = reader.add_bytes(seg) {
                     return Err(fail!("reader:segmented-yields-result-oneshot-does-not", "segment {i} cuts {:?}", cuts));
                 }
@@ -95,7 +102,7 @@ pub fn check_reader(record: &[u8], stream: &[u8], cuts: &[usize]) -> Result<(), 
     Ok(())
 }
 
-fn mk_ip(v4: bool) -> Ip {
+pub fn mk_ip(v4: bool) -> Ip {
     if v4 {
         Ip::V4(Ip4::default())
     } else {
@@ -114,7 +121,7 @@ pub fn seg_frames(ip: &Ip, sport: u16, dport: u16, isn: u32, segs: &[Vec<u8>]) -
     out
 }
 
-fn tls_feed(f: &[u8], flows: &mut ttl_cache::TtlCache<huginn_net_tls::FlowKey, TlsClientHelloReader>) -> Result<Option<huginn_net_tls::TlsClientOutput>, String> {
+pub fn tls_feed(f: &[u8], flows: &mut ttl_cache::TtlCache<huginn_net_tls::FlowKey, TlsClientHelloReader>) -> Result<Option<huginn_net_tls::TlsClientOutput>, String> {
     use huginn_net_tls::packet_parser::{parse_packet, IpPacket};
     match parse_packet(f) {
         IpPacket::Ipv4(p) => huginn_net_tls::process::process_ipv4_packet(&p, flows).map_err(|e| e.to_string()),
